@@ -46,7 +46,7 @@ Proof.
     + intros a d r _ _ Er. unfold deco. rewrite vwapD_deco; first [exact Er | assumption | split; assumption].
   - exists (stdevD NO I period input). split.
     + intros f a c rest _ Hg. eapply stdev_shape; first [eassumption | split; assumption].
-    + intros a d r _ _ Er. unfold deco. rewrite (stdevD_deco NO I Ht (conj Hd Ha) period input Hp HiI HiM). exact Er.
+    + intros a d r _ _ Er. unfold deco. rewrite (stdevD_deco NO I (conj Hd Ha) period input Hp HiI HiM). exact Er.
   - exists (rsiD NO I period input). split.
     + intros f a c rest _ Hg. eapply rsi_shape; first [eassumption | split; assumption].
     + intros a d r _ (_ & HfM & Hg) Er. unfold deco. eapply rsi_recomp; first [eassumption | split; assumption].
@@ -60,7 +60,7 @@ Hypothesis Hkind : data_kind I key.
 Let Hs : i_subs NO I = [] := proj1 Hnode.
 Let Hn : i_name NO I <> i_name NO (dataM NO I) := Hname NO I.
 Let Hg : forall d w v, G NO I d -> G NO I (setk NO I (slot NO (dataM NO I) d w) v) :=
-  G_pres NO I (proj1 (proj2 (proj2 Hnode))).
+  G_pres NO I.
 
 (* C01: any split of a stream into append chunks = one calculate() over the whole stream *)
 Theorem data_incremental_equals_batch (chunks : list (list cd)) :
